@@ -76,10 +76,13 @@ def san_kind(stderr):
         elif 'glibcxx' in t.lower() or '__glibcxx_assert' in t or 'Assertion' in t:
             kind = 'glibcxx-assert'
     frame = None
-    for m in re.finditer(r'#\d+ 0x[0-9a-f]+ in (\S+) (/\S+?):(\d+)', t):
+    for m in re.finditer(r'#\d+ 0x[0-9a-f]+ in (.+?) (/[^\s:]+):(\d+)', t):
         path = m.group(2)
         if '/dfs/' in path or '/basic/' in path:
-            frame = '%s@%s' % (m.group(1).split('(')[0], os.path.basename(path))
+            fn = m.group(1).replace('(anonymous namespace)::', '')
+            fn = re.sub(r'\(.*$', '', fn)
+            fn = re.sub(r'<.*$', '', fn).split('::')[-1].strip()
+            frame = '%s@%s' % (fn, os.path.basename(path))
             break
     return kind, frame
 
